@@ -182,6 +182,7 @@ pub fn build(p: P) -> Scenario<Arc<CS>> {
         if nodrain {
             // values left inside are not "discarded": only the drop accounting is judged here
             check_drops()?;
+            check_drop_sites(&e.log)?;
             if let Some(m) = panicked {
                 return Err(m);
             }
@@ -212,6 +213,33 @@ pub fn build(p: P) -> Scenario<Arc<CS>> {
     }
 }
 
+/// C07: a value is destroyed by the receiver that got it, by its own send (channel full) or when the
+/// channel is dropped - not inside the send of another value and not inside a receive.
+fn check_drop_sites(log: &[Ev]) -> Result<(), String> {
+    let mut cur: std::collections::HashMap<(u8, u8), Vec<Option<u64>>> = std::collections::HashMap::new();
+    for ev in log {
+        let k = (ev.tid, ev.depth);
+        match ev.tag {
+            "send_call" => cur.entry(k).or_default().push(Some(ev.a)),
+            "recv_call" => cur.entry(k).or_default().push(None),
+            "send_ret" | "recv_ret" => {
+                cur.entry(k).or_default().pop();
+            }
+            "value_drop" => match cur.get(&k).and_then(|v| v.last()) {
+                Some(Some(y)) if *y != ev.a => {
+                    return Err(format!("C07: value {:#x} was destroyed inside the send of another value ({:#x}) - not by its receiver, its own send or the drop of the channel", ev.a, y));
+                }
+                Some(None) => {
+                    return Err(format!("C07: value {:#x} was destroyed inside a receive instead of being handed to the caller", ev.a));
+                }
+                _ => {}
+            },
+            _ => {}
+        }
+    }
+    Ok(())
+}
+
 /// C07: exactly-once drops
 fn check_drops() -> Result<(), String> {
     for id in 0..256usize {
@@ -236,6 +264,11 @@ struct RecvOp {
 }
 
 fn check_log(log: &[Ev], _prop: &str) -> Result<u64, String> {
+    if _prop == "C07" {
+        // this check's own oracles first: an execution usually violates several at once
+        check_drops()?;
+        check_drop_sites(log)?;
+    }
     let mut vals: HashMap<u64, Val> = HashMap::new();
     let mut recvs: Vec<RecvOp> = Vec::new();
     let mut open_recv: HashMap<(u8, u8), usize> = HashMap::new();
@@ -388,6 +421,7 @@ fn check_log(log: &[Ev], _prop: &str) -> Result<u64, String> {
         }
     }
     check_drops()?;
+    check_drop_sites(log)?;
     // digest: receive results per thread in order + discards
     let mut h: u64 = 0xcbf29ce484222325;
     let mut mix = |x: u64| {
@@ -444,6 +478,9 @@ pub fn scenarios(prop: &str, tier: Tier) -> Vec<Item> {
     }
     // two consumers
     v.push(item(build(p("p1x2_c2", (0, 1), &[2], &[1, 1], &[], 0, false, 0)), Some(if q { 3 } else { 4 }), "two consumers (MPMC mode)"));
+    for (name, k) in [("full5_c2_p1", 0u32), ("full5_rot2_c2_p1", 2)] {
+        v.push(item(build(p(name, (k, 5), &[1], &[1, 1], &[], 0, false, 0)), Some(if q { 3 } else { 4 }), "completely full channel (no free slot queued; fresh and rotated, so that different slot numbers meet), two consumers return their slots at the same time, then a producer reuses one"));
+    }
     if !q {
         v.push(item(build(p("p2x2_c1x3_weak", (2, 0), &[2, 2], &[3], &[], 0, true, 1)), Some(3), "2x2 sends vs 3 recvs"));
         v.push(item(build(p("p1x3_c1x3_rot4", (4, 1), &[3], &[3], &[2], 1, true, 0)), Some(3), "3 sends vs 3 recvs from rotated k=4 start with nested send in consumer"));
